@@ -21,7 +21,7 @@ using namespace vf;
 namespace {
 
 struct Op {
-	enum K { SEND, FLUSH, ADV, CAP } k;
+	enum K { SEND, FLUSH, ADV, CAP, ANS } k;
 	SendCall call;
 	unsigned val = 0;
 };
@@ -37,7 +37,7 @@ void *thread_main(void *arg) {
 		case Op::SEND: do_send(op.call); break;
 		case Op::FLUSH: bidib_flush(); break;
 		case Op::ADV: vf_usleep(op.val); break;
-		case Op::CAP: break;
+		case Op::CAP: case Op::ANS: break;
 		}
 	}
 	return nullptr;
@@ -78,11 +78,16 @@ void prop(DP &dp, const ref::Bytes &sched, Ctx &ctx) {
 	unsigned fi = FI[dp.pick(4)];
 	unsigned nthreads = 1 + dp.weighted({6, 3, 2, 1});
 	bool hot = dp.chance(40);       // payloads made of escape-needing bytes only
-	ctx.desc << "C01 auto_flush=" << fi << "ms threads=" << nthreads << (hot ? " hot-payloads" : "") << "\n";
+	// deferred mode: the per-node budget is NOT respected by the generator; messages beyond it are held back by the library
+	// and released by the receiver thread when answers arrive (injected by thread 0) - concurrently with the other senders.
+	// "Once flushed every message ... appears exactly once" is then judged after everything has been answered.
+	bool deferred_mode = dp.chance(70);
+	ctx.desc << "C01 auto_flush=" << fi << "ms threads=" << nthreads << (hot ? " hot-payloads" : "") << (deferred_mode ? " deferred-mode" : "") << "\n";
 
 	// cumulative response budget per node keeps every message "accepted for immediate
 	// transmission" (<= 48 bytes outstanding even if nothing is ever answered)
 	std::map<std::string, int> budget;
+	std::map<std::string, std::set<uint8_t>> node_types;      // deferred mode: request types sent to each node
 	std::vector<ThreadPlan> plans(nthreads);
 	std::vector<uint8_t> caps;
 	unsigned total_sends = 0;
@@ -90,7 +95,7 @@ void prop(DP &dp, const ref::Bytes &sched, Ctx &ctx) {
 		unsigned nops = (unsigned) dp.range(1, 40);
 		for (unsigned i = 0; i < nops && dp.more(); i++) {
 			Op op;
-			switch (dp.weighted({14, 3, 2, t == 0 ? 2u : 0u})) {
+			switch (dp.weighted({14, 3, 2, t == 0 ? 2u : 0u, (t == 0 && deferred_mode) ? 5u : 0u})) {
 			case 0: {
 				op.k = Op::SEND;
 				op.call = draw_send(dp, true);
@@ -105,6 +110,14 @@ void prop(DP &dp, const ref::Bytes &sched, Ctx &ctx) {
 				// re-address until the node's cumulative budget has room
 				int guard = 0;
 				bool fixed_addr = !strcmp(f.name, "bidib_send_sys_enable") || !strcmp(f.name, "bidib_send_sys_disable");
+				if (deferred_mode) {
+					// few nodes, so that budgets overflow; sys_enable/disable (broadcast semantics) stay out of this mode
+					if (fixed_addr) continue;
+					op.call.addr = {(uint8_t) (1 + dp.pick(3))};
+					node_types[key(op.call.addr)].insert(f.type);
+					total_sends++;
+					break;
+				}
 				while (budget[key(op.call.addr)] + rs > 48 && guard++ < 600) {
 					if (fixed_addr) break;
 					ctx.count("readdressed");
@@ -122,6 +135,7 @@ void prop(DP &dp, const ref::Bytes &sched, Ctx &ctx) {
 			}
 			case 1: op.k = Op::FLUSH; break;
 			case 2: op.k = Op::ADV; op.val = (unsigned) dp.range(0, 60) * 1000; break;
+			case 4: op.k = Op::ANS; break;
 			default: op.k = Op::CAP; op.val = dp.chance(128) ? dp.u8() : (uint8_t) (60 + dp.pick(12) * 17); break;
 			}
 			plans[t].ops.push_back(op);
@@ -135,6 +149,7 @@ void prop(DP &dp, const ref::Bytes &sched, Ctx &ctx) {
 			case Op::FLUSH: ctx.desc << "\n   flush"; break;
 			case Op::ADV: ctx.desc << "\n   sleep " << op.val << "us"; break;
 			case Op::CAP: ctx.desc << "\n   rx PKT_CAPACITY " << op.val; break;
+			case Op::ANS: ctx.desc << "\n   rx answers (release deferred messages)"; break;
 			}
 		}
 		ctx.desc << "\n";
@@ -147,8 +162,23 @@ void prop(DP &dp, const ref::Bytes &sched, Ctx &ctx) {
 	std::vector<pthread_t> th(nthreads);
 	for (unsigned t = 1; t < nthreads; t++) vf_pthread_create(&th[t], nullptr, thread_main, &plans[t]);
 	std::vector<std::pair<size_t, unsigned>> cap_events;    // (downlink offset at announcement, capacity)
+	// one uplink message per (node, answer type of a request type sent to it): credits whatever is outstanding
+	auto inject_answers = [&]() {
+		for (auto &kv : node_types)
+			for (uint8_t rt : kv.second) {
+				const ref::RespInfo &ri = ref::RESP[rt & 0x7f];
+				if (ri.n < 2) continue;
+				ref::Msg m;
+				m.addr = ref::Bytes(kv.first.begin(), kv.first.end());
+				m.type = ri.ans[0];
+				m.seq = 0;
+				m.data = {0, 0, 0};
+				s.inject_packet({m});
+			}
+	};
 	for (auto &op : plans[0].ops) {
 		switch (op.k) {
+		case Op::ANS: inject_answers(); break;
 		case Op::SEND: do_send(op.call); break;
 		case Op::FLUSH: bidib_flush(); break;
 		case Op::ADV: s.advance(op.val); break;
@@ -167,6 +197,20 @@ void prop(DP &dp, const ref::Bytes &sched, Ctx &ctx) {
 	for (unsigned t = 1; t < nthreads; t++) vf_pthread_join(th[t], nullptr);
 	bidib_flush();
 	s.settle();
+	if (deferred_mode) {
+		// answer / expire until nothing more comes out
+		size_t last = 0;
+		int calm = 0;
+		for (int round = 0; round < 200 && calm < 4; round++) {
+			inject_answers();
+			s.settle();
+			bidib_flush();
+			if (round % 8 == 7) s.advance(2100000);
+			if (s.down.size() == last) calm++; else calm = 0;
+			last = s.down.size();
+		}
+		Session::drain_messages();
+	}
 	ref::Bytes wire = s.down;
 	unsigned preempt = vf_preemptions_taken();
 
@@ -252,6 +296,7 @@ void prop(DP &dp, const ref::Bytes &sched, Ctx &ctx) {
 	if (capnt) ctx.tag("capacity>64");
 	if (multi) ctx.tag("multi-message-packet");
 	if (nthreads > 1 && preempt) ctx.tag("threads+preemption");
+	if (deferred_mode) ctx.tag(nthreads > 1 ? "deferred-release-racing-senders" : "deferred-release");
 	ctx.count("sends", total_sends);
 	ctx.count("packets", (long) dec.packets.size());
 	ctx.nontrivial = total_sends > 0 && (escapes || crc_esc || big_image || capnt || (nthreads > 1 && preempt));
